@@ -167,3 +167,150 @@ class optimize_multiple:
         "candidate_inputs": "forall(lambda j: called_args_at('%s', j)['template'][0, 0, 0] == template_list[j, 0, 0, 0], "
                             "(0, template_list.shape[0]))" % _OPT,
     }
+
+
+# ---------------------------------------------------------------------------
+# candidate generation: (rotation-major, template-minor) order, K*T templates and K*T masks
+from pyvc import symex as _X
+from pyvc.rotation import quat_to_matrix
+
+
+class _TRotModel(T.Obj):
+    """a RotationImplemented model with K rotations and T templates (symbolic), empty template cache"""
+
+    def __init__(self, multi_template):
+        self.multi = multi_template
+        self.clskey = "acryo.alignment._base:RotationImplemented"
+        self._src = None
+        self.attrs = {}
+
+    def cases(self):
+        return [self]
+
+    def fresh(self, name, path):
+        import z3
+        from pyvc.values import Sym
+        from pyvc.arrays import SArr
+        interp = path.interp
+        cls = interp.resolve(self.clskey)
+        K = Sym(z3.Int("K_rotations"))
+        Tn = Sym(z3.Int("T_templates")) if self.multi else 1
+        path.assume(K >= 1)
+        if self.multi:
+            path.assume(Tn >= 2)
+        s = tuple(Sym(z3.Int(f"box_{a}")) for a in range(3))
+        for x in s:
+            path.assume(x >= 1)
+        q = z3.Function("quaternions", z3.IntSort(), z3.IntSort(), z3.RealSort())
+        quats = SArr((K, 4), lambda idx: Sym(q(V.lift(idx[0]), V.lift(idx[1]))), "real")
+        if self.multi:
+            tf = z3.Function("templates", *([z3.IntSort()] * 4), z3.RealSort())
+            tmpl = SArr((Tn,) + s, lambda idx: Sym(tf(*[V.lift(i) for i in idx])), "real")
+        else:
+            tf = z3.Function("template", *([z3.IntSort()] * 3), z3.RealSort())
+            tmpl = SArr(s, lambda idx: Sym(tf(*[V.lift(i) for i in idx])), "real")
+        mf = z3.Function("mask", *([z3.IntSort()] * 3), z3.RealSort())
+        mask = SArr(s, lambda idx: Sym(mf(*[V.lift(i) for i in idx])), "real")
+        cache = interp.instantiate(interp.resolve("acryo.alignment._base:TemplateMaskCache"), [], {})
+        return _X.Obj(cls, {"quaternions": quats, "_n_rotations": K, "_n_templates": Tn, "_template": tmpl,
+                            "_mask": mask, "_ndim": 3, "_template_mask_cache": cache})
+
+    def src(self, name, model):
+        return "None"
+
+
+def expected_matrix(self, k, a, b):
+    """entry (a, b) of the affine matrix that produces candidate rotation k: T(c) R_k^-1 T(-c), c = shape/2 - 0.5"""
+    quats = self.attrs["quaternions"]
+    q = tuple(quats.at((k, c)) for c in range(4))
+    m = quat_to_matrix(q)
+    rinv = [[m[j][i] for j in range(3)] for i in range(3)]
+    shape = self.attrs["_template"].shape[-3:]
+    c = [s / 2 - 0.5 for s in shape]
+    if a == 3:
+        return 1 if b == 3 else 0
+    if b < 3:
+        return rinv[a][b]
+    return c[a] - sum(rinv[a][j] * c[j] for j in range(3))
+
+
+_AT = "Backend.affine_transform"
+
+
+@contract("acryo.backend._api:Backend.affine_transform", props=["C06"])
+class backend_affine:
+    """thin wrapper over scipy.ndimage.affine_transform (trusted); as a modular call it exposes its arguments"""
+    trusted = True
+    params = dict(self=T.Backend())
+    result = lambda interp, bound: fresh_array("affine_out", 3, "real",
+                                               shape=tuple(bound["output_shape"]) if bound.get("output_shape") is not None
+                                               else tuple(__import__("pyvc.arrays", fromlist=["x"]).from_nested(bound["img"]).shape))
+    ensures = {}
+
+
+abstract_pre_transform.result = None
+from pyvc import contract as _C
+_C.REGISTRY["acryo.alignment._base:BaseAlignmentModel.pre_transform"].result = \
+    lambda interp, bound: fresh_array("pre_transformed", 3, "real",
+                                      shape=tuple(__import__("pyvc.arrays", fromlist=["x"]).from_nested(bound["image"]).shape))
+
+
+def _replay_candidates(ob_name, meta, model):
+    """public-entry replay: a real ZNCCAlignment with T templates and K rotations; its candidate stacks are compared
+    with independently transformed templates / masks (count and rotation-major, template-minor order)"""
+    return '''
+import numpy as np
+from scipy import ndimage as ndi
+from scipy.spatial.transform import Rotation
+from acryo.alignment import ZNCCAlignment
+from acryo._utils import compose_matrices
+T_ = min(max(int(model.get("T_templates", 2)), 2), 4); K_ = min(max(int(model.get("K_rotations", 2)), 2), 4)
+rng = np.random.default_rng(3)
+shape = (9, 9, 9)
+templates = [ndi.gaussian_filter(rng.normal(size=shape), 1.0).astype(np.float32) for _ in range(T_)]
+mask = np.ones(shape, dtype=np.float32); mask[:2] = 0.5
+rots = [Rotation.identity()] + [Rotation.from_rotvec(v) for v in rng.normal(size=(K_ - 1, 3)) * 0.6]
+m = ZNCCAlignment(templates, mask, rotations=Rotation.concatenate(rots))
+tmpl, msk = m._get_template_and_mask_input()
+ok = tmpl.shape[0] == K_ * T_ and msk.shape[0] == K_ * T_
+print("T=%d K=%d: %d candidate templates, %d candidate masks (expected %d each)" % (T_, K_, tmpl.shape[0], msk.shape[0], K_ * T_))
+if ok:
+    mats = compose_matrices(np.array(shape) / 2 - 0.5, [r.inv() for r in rots])
+    cval = float(np.percentile(np.stack(templates), 1))
+    for p in range(K_ * T_):
+        k, j = divmod(p, T_)
+        filt = ndi.spline_filter(templates[j] * mask, order=3, mode="constant", output=np.float32)
+        want = ndi.affine_transform(filt, mats[k], order=3, cval=cval, prefilter=False)
+        got = np.fft.ifftn(tmpl[p]).real
+        wantm = ndi.affine_transform(mask, mats[k], order=3, mode="nearest", prefilter=False)
+        good = np.allclose(got, want, atol=1e-3) and np.allclose(msk[p], wantm, atol=1e-4)
+        if not good:
+            print("candidate", p, "is not (rotation %d, template %d)" % (k, j))
+        ok = ok and good
+print("clause holds natively:", ok)
+print("CONFIRMED" if not ok else "NOT-CONFIRMED"); sys.exit(1 if not ok else 0)
+'''
+
+
+for _multi in (True, False):
+    @contract("acryo.alignment._base:RotationImplemented._get_template_and_mask_input", props=["C06"]) if _multi else (lambda c: c)
+    class template_and_mask_input:
+        """K > 1 rotations, T >= 2 templates: K*T candidate templates and K*T candidate masks; candidate p is template
+        (p % T) and the mask, both transformed with the matrix of rotation (p // T) -- rotation-major, template-minor."""
+        params = dict(self=_TRotModel(True), backend=T.Backend())
+        requires = ["self._n_rotations > 1"]
+        replay = staticmethod(_replay_candidates)
+        helpers = dict(expected_matrix=expected_matrix)
+        ensures = {
+            "counts": "result[0].shape[0] == self._n_rotations * self._n_templates and "
+                      "result[1].shape[0] == self._n_rotations * self._n_templates",
+            "template_candidates":
+                "forall(lambda p: all(called_args_at('%s', p, 0)['matrix'][a, b] == "
+                "expected_matrix(self, p // self._n_templates, a, b) for a in range(4) for b in range(4)) and "
+                "called_args_at('%s', p, 0)['img'][0, 0, 0] == self._template[p %% self._n_templates, 0, 0, 0] * self._mask[0, 0, 0], "
+                "(0, self._n_rotations * self._n_templates))" % (_AT, _AT),
+            "mask_candidates":
+                "forall(lambda p: all(called_args_at('%s', p, 1)['matrix'][a, b] == "
+                "expected_matrix(self, p // self._n_templates, a, b) for a in range(4) for b in range(4)), "
+                "(0, self._n_rotations * self._n_templates))" % _AT,
+        }
